@@ -1,6 +1,7 @@
 (* C06 — Integrals and means are cell sums times cell measure, consistent across axes.
    K is an arbitrary field. Statements only. *)
-From DF Require Import Prelude FieldK NDArray Integrate C06_proofs C06_means.
+From Coq Require Import Qcanon.
+From DF Require Import Prelude FieldK NDArray Integrate C06_proofs C06_means Check_C06 CheckSound C06_sound.
 
 (* the integral over all directions is the sum of the cell values times the cell volume *)
 Theorem C06_total : forall (K : FOps) sh nvdim dV (f : idx -> K) c, (c < nvdim)%nat ->
@@ -105,3 +106,67 @@ Print Assumptions C06_linear_cumulative.
    integrate_cum / mean_* take only shape, cell lengths and values (translation invariance is
    therefore structural; on the implementation it is checked by the harness clause
    `depends-on-mesh-position`). *)
+
+(* ---- the tie, proved: soundness of the correspondence checker.  A case of a shard that evaluates
+   to true certifies that the OBSERVED output of the implementation is the model's value on the
+   observed input array (exact regime: Leibniz equality of canonical rationals; means: within
+   mean_tol * scale), so the theorems above apply to the observation itself. *)
+Theorem C06_check_total_sound : forall sh nvdim dV vals obs,
+  check_C06 (CIntAll sh nvdim dV vals obs) = true ->
+  length vals = nprod (sh ++ [nvdim]) /\
+  qcl obs = integrate_all QcOps sh nvdim (qc dV) (arr sh nvdim vals).
+Proof. exact check_int_all_sound. Qed.
+Print Assumptions C06_check_total_sound.
+Theorem C06_check_directional_sound : forall sh nvdim ax h vals obs,
+  check_C06 (CIntDir sh nvdim ax h vals obs) = true ->
+  length vals = nprod (sh ++ [nvdim]) /\
+  qcl obs = to_list (remove_nth ax sh ++ [nvdim]) (integrate_dir QcOps sh nvdim ax (qc h) (arr sh nvdim vals)).
+Proof. exact check_int_dir_sound. Qed.
+Print Assumptions C06_check_directional_sound.
+Theorem C06_check_cumulative_sound : forall sh nvdim ax h vals obs,
+  check_C06 (CIntCum sh nvdim ax h vals obs) = true ->
+  length vals = nprod (sh ++ [nvdim]) /\
+  qcl obs = to_list (sh ++ [nvdim]) (integrate_cum QcOps sh nvdim ax (qc h) (arr sh nvdim vals)).
+Proof. exact check_int_cum_sound. Qed.
+Print Assumptions C06_check_cumulative_sound.
+Theorem C06_check_mean_sound : forall sh nvdim vals scale obs,
+  check_C06 (CMeanAll sh nvdim vals scale obs) = true ->
+  length vals = nprod (sh ++ [nvdim]) /\
+  length obs = nvdim /\
+  forall c, (c < nvdim)%nat ->
+    (Qabs (this (nth c (mean_all QcOps sh nvdim (arr sh nvdim vals)) 0%Qc) - this (nth c (qcl obs) 0%Qc))
+     <= mean_tol * scale)%Q.
+Proof. exact check_mean_all_sound. Qed.
+Print Assumptions C06_check_mean_sound.
+Theorem C06_check_mean_directional_sound : forall sh nvdim ax vals scale obs,
+  check_C06 (CMeanDir sh nvdim ax vals scale obs) = true ->
+  length vals = nprod (sh ++ [nvdim]) /\
+  forall k, (k < length obs)%nat ->
+    (Qabs (this (nth k (to_list (remove_nth ax sh ++ [nvdim]) (mean_dir QcOps sh nvdim ax (arr sh nvdim vals))) 0%Qc)
+           - this (nth k (qcl obs) 0%Qc)) <= mean_tol * scale)%Q.
+Proof. exact check_mean_dir_sound. Qed.
+Print Assumptions C06_check_mean_directional_sound.
+(* a whole shard: no failing index means every case was accepted *)
+Theorem C06_shard_verdict : forall cases k,
+  failing k (map check_C06 cases) = [] -> forall c, In c cases -> check_C06 c = true.
+Proof. exact (failing_nil_all check_C06). Qed.
+Print Assumptions C06_shard_verdict.
+(* transfer: the observed integrate() output is the cell sum times the cell volume ... *)
+Theorem C06_accepted_total : forall sh nvdim dV vals obs c,
+  check_C06 (CIntAll sh nvdim dV vals obs) = true -> (c < nvdim)%nat ->
+  nth c (qcl obs) 0%Qc = (total QcOps sh (fun i => arr sh nvdim vals (i ++ [c])) * qc dV)%Qc.
+Proof. exact accepted_total. Qed.
+Print Assumptions C06_accepted_total.
+(* ... and equals the directional integral along ANY axis summed over the remaining cells *)
+Theorem C06_accepted_fubini : forall sh ax h r vals obs_all,
+  (ax < length sh)%nat ->
+  check_C06 (CIntAll sh 1 (Qmult h r) vals obs_all) = true ->
+  nth 0 (qcl obs_all) 0%Qc
+  = (total QcOps (remove_nth ax sh)
+       (fun i => (sum_axis QcOps sh ax (fun i => arr sh 1 vals (i ++ [0%nat])) i * qc h)%Qc) * qc r)%Qc.
+Proof. exact accepted_fubini. Qed.
+Print Assumptions C06_accepted_fubini.
+Example C06_accepted_total_instance :
+  check_C06 (CIntAll [2;3]%nat 1 (1#4) [1;2;3;4;5;6]%Q [(21#4)%Q]) = true.
+Proof. exact accepted_total_instance. Qed.
+Print Assumptions C06_accepted_total_instance.
